@@ -254,6 +254,48 @@ def lexIdent (upper : Bool) : IMode → Str → List Sym → LexRes
 
 def mk (k : TK) (s : String) (rest : List Sym) : LexRes := .tok ⟨k, s.toList⟩ rest false
 
+/-- the single-character tokens -/
+def punctTok (c : Char) (tl : List Sym) : Option LexRes :=
+  if c = '{' then some (mk .lcurly "{" tl)
+  else if c = '}' then some (mk .rcurly "}" tl)
+  else if c = '[' then some (mk .lbrack "[" tl)
+  else if c = ']' then some (mk .rbrack "]" tl)
+  else if c = '(' then some (mk .lparen "(" tl)
+  else if c = ')' then some (mk .rparen ")" tl)
+  else if c = ',' then some (mk .comma "," tl)
+  else if c = '.' then some (mk .dot "." tl)
+  else none
+
+/-- after `=`: `sr.Peek() == '>'` -/
+def eqTok (tl : List Sym) : LexRes :=
+  match tl with
+  | [] => mk .equal "=" tl
+  | s2 :: tl2 => if s2.rune = some '>' then mk .rocket "=>" tl2 else mk .equal "=" tl
+
+/-- after a sign `c`: `n := sr.Next()` must be a digit -/
+def signTok (isLetter : Char → Bool) (c : Char) (tl : List Sym) : LexRes :=
+  match tl with
+  | [] => .err [] true
+  | s2 :: tl2 =>
+    match s2.rune with
+    | none => .err (s2 :: tl2) false
+    | some d => if isDigit d then lexNum isLetter (.intPart (d = '0')) [d, c] tl2 else .err tl2 false
+
+/-- the `switch r` of `nextToken` for a character `c` (already consumed) that is neither blank, `#` nor NUL -/
+def startTok (isLetter : Char → Bool) (c : Char) (tl : List Sym) : LexRes :=
+  if c = '\'' ∨ c = '"' then lexStr c .norm [] tl
+  else if c = '/' then lexRx .norm [] tl
+  else
+    match punctTok c tl with
+    | some r => r
+    | none =>
+      if c = '=' then eqTok tl
+      else if c = '-' ∨ c = '+' then signTok isLetter c tl
+      else if isDigit c then lexNum isLetter (.intPart (c = '0')) [c] tl
+      else if isUpper c then lexIdent true .body [c] tl
+      else if isLower c then lexIdent false .body [c] tl
+      else .err tl false
+
 /-- `nextToken(sr)`; `inComment = true` is the inside of `consumeLineComment` -/
 def nextTok (isLetter : Char → Bool) : Bool → List Sym → LexRes
   | _, [] => .tok ⟨.eoi, []⟩ [] true
@@ -266,31 +308,7 @@ def nextTok (isLetter : Char → Bool) : Bool → List Sym → LexRes
       else if c = '\x00' then .tok ⟨.eoi, []⟩ tl false
       else if c = ' ' ∨ c = '\t' ∨ c = '\n' then nextTok isLetter false tl
       else if c = '#' then nextTok isLetter true tl
-      else if c = '\'' ∨ c = '"' then lexStr c .norm [] tl
-      else if c = '/' then lexRx .norm [] tl
-      else if c = '{' then mk .lcurly "{" tl
-      else if c = '}' then mk .rcurly "}" tl
-      else if c = '[' then mk .lbrack "[" tl
-      else if c = ']' then mk .rbrack "]" tl
-      else if c = '(' then mk .lparen "(" tl
-      else if c = ')' then mk .rparen ")" tl
-      else if c = ',' then mk .comma "," tl
-      else if c = '.' then mk .dot "." tl
-      else if c = '=' then
-        match tl with
-        | [] => mk .equal "=" tl
-        | s2 :: tl2 => if s2.rune = some '>' then mk .rocket "=>" tl2 else mk .equal "=" tl
-      else if c = '-' ∨ c = '+' then
-        match tl with
-        | [] => .err [] true
-        | s2 :: tl2 =>
-          match s2.rune with
-          | none => .err (s2 :: tl2) false
-          | some d => if isDigit d then lexNum isLetter (.intPart (d = '0')) [d, c] tl2 else .err tl2 false
-      else if isDigit c then lexNum isLetter (.intPart (c = '0')) [c] tl
-      else if isUpper c then lexIdent true .body [c] tl
-      else if isLower c then lexIdent false .body [c] tl
-      else .err tl false
+      else startTok isLetter c tl
 
 def nextToken (isLetter : Char → Bool) (inp : List Sym) : LexRes := nextTok isLetter false inp
 
